@@ -341,6 +341,19 @@ class World:
 
     def op_ADD(self, op):
         parent = self._need(op['p'])
+        if 'attached' in op:
+            # fault: offer a child that is still attached elsewhere (only generated where the model says the offer
+            # must be rejected); if the library accepts it the shadow is left alone and the event says so
+            child = self.node(op['attached'])
+            if child is None or child.parent is None or child is parent or any(x is child for x in self._ancestors(parent)):
+                raise _Skip('no attached node')
+            if 'fwd' in op and op['fwd'] is not None:
+                r = self.call(lambda: parent.el.add_child(child.el, forward=op['fwd']))
+            else:
+                r = self.call(lambda: parent.el.add_child(child.el))
+            if r[0] == 'ok':
+                return ('ok', 'accepted-attached-child')
+            return ('exc', r[1], 'add')
         if 'reuse' in op:
             child = self._detached(op['reuse'], op.get('reuse_doc', op['p'][0]))
             if child is parent or any(x is child for x in self._ancestors(parent)):
